@@ -4,21 +4,43 @@ package num
 
 import "github.com/invopop/gobl/internal/vrt"
 
+// C05 — decimal amount arithmetic is exact with round-half-away-from-zero.
+//
+// Layer 0 (H_C05_L0_*): Rescale, Multiply, Divide — one float64 rounding chain
+// each — are proved equal to the integer-only reference functions spec* below on
+// the 2^52 domain, with the engine's float64 model inlined.
+// Layer 1 (H_C05_L1_*): every other operation, with the three layer-0 methods
+// replaced by sum* (= domain assumption + spec*).
+
 const dom52 = int64(1) << 52
 
-// pow10 is the reference power of ten (table, no loop).
 var specPow10 = [...]int64{1, 10, 100, 1000, 10000, 100000, 1000000, 10000000, 100000000, 1000000000,
 	10000000000, 100000000000, 1000000000000, 10000000000000, 100000000000000, 1000000000000000,
 	10000000000000000, 100000000000000000, 1000000000000000000}
 
-// specRHA is round-half-away-from-zero of n/d for d > 0, integers only.
-func specRHA(n, d int64) int64 {
-	// floor((2|n| + d) / 2d) with sign
-	neg := n < 0
-	if neg {
-		n = -n
+// nexp is the number of exponents explored per operand (0..n-1).
+func nexp() int {
+	if vrt.Thorough() {
+		return 10
 	}
-	q := vrt.DivFloor(2*n+d, 2*d)
+	return 5
+}
+
+func inDom(v int64) bool { return vrt.And(v > -dom52, v < dom52) }
+
+// specRHA is n/d rounded half away from zero, d != 0, integers only.
+func specRHA(n, d int64) int64 {
+	neg := false
+	if n < 0 {
+		n = -n
+		neg = !neg
+	}
+	if d < 0 {
+		d = -d
+		neg = !neg
+	}
+	// floor(n/d + 1/2) = floor((floor(2n/d) + 1) / 2) for n >= 0, d > 0
+	q := vrt.DivFloor(vrt.DivFloor(2*n, d)+1, 2)
 	if neg {
 		return -q
 	}
@@ -35,15 +57,267 @@ func specRescale(a Amount, exp uint32) Amount {
 	return a
 }
 
-// H_C05_Rescale: Rescale(a, e) == round-half-away of the exact decimal, all values in the 2^52 domain.
-func H_C05_Rescale() {
-	v := vrt.Int64In("v", -dom52+1, dom52-1)
-	e1 := uint32(vrt.Choice("e1", 10))
-	e2 := uint32(vrt.Choice("e2", 10))
-	a := Amount{v, e1}
+func specMultiply(a, a2 Amount) Amount {
+	return Amount{specRHA(a.value*a2.value, specPow10[a2.exp]), a.exp}
+}
+
+func specDivide(a, a2 Amount) Amount {
+	return Amount{specRHA(a.value*specPow10[a2.exp], a2.value), a.exp}
+}
+
+// Summaries used by layer 1 and by the higher-level properties: the proven
+// meaning of the operation on its proven domain.
+// domRescale: the operand and the exact result fit the 2^52 domain (checked
+// without wrap-around, before any int64 product is formed).
+func domRescale(a Amount, exp uint32) bool {
+	if a.exp < exp {
+		return vrt.MulFits(a.value, specPow10[exp-a.exp], dom52)
+	}
+	return inDom(a.value)
+}
+
+func domMultiply(a, a2 Amount) bool {
+	return vrt.And(vrt.And(inDom(a.value), inDom(a2.value)), vrt.MulFits(a.value, a2.value, dom52))
+}
+
+func domDivide(a, a2 Amount) bool {
+	return vrt.And(vrt.And(inDom(a2.value), a2.value != 0), vrt.MulFits(a.value, specPow10[a2.exp], dom52))
+}
+
+func sumRescale(a Amount, exp uint32) Amount {
+	vrt.Assume(domRescale(a, exp))
+	return specRescale(a, exp)
+}
+
+func sumMultiply(a, a2 Amount) Amount {
+	vrt.Assume(domMultiply(a, a2))
+	return specMultiply(a, a2)
+}
+
+func sumDivide(a, a2 Amount) Amount {
+	vrt.Assume(domDivide(a, a2))
+	return specDivide(a, a2)
+}
+
+func symAmount(name string) Amount {
+	v := vrt.Int64In(name+".v", -dom52+1, dom52-1)
+	e := uint32(vrt.Choice(name+".e", nexp()))
+	return Amount{v, e}
+}
+
+// ---------------------------------------------------------------- layer 0
+
+func H_C05_L0_Rescale() {
+	a := symAmount("a")
+	e2 := uint32(vrt.Choice("e2", nexp()))
+	vrt.Assume(domRescale(a, e2))
 	want := specRescale(a, e2)
-	vrt.Assume(vrt.And(want.value > -dom52, want.value < dom52))
 	got := a.Rescale(e2)
 	vrt.Assert(got.exp == e2, "rescale-exp")
 	vrt.Assert(got.value == want.value, "rescale-value")
+	if a.exp <= e2 {
+		// raising precision never loses information
+		back := specRescale(got, a.exp)
+		vrt.Assert(back.value == a.value, "rescale-up-lossless")
+	}
+}
+
+func H_C05_L0_Multiply() {
+	a := symAmount("a")
+	b := symAmount("b")
+	vrt.Assume(domMultiply(a, b))
+	want := specMultiply(a, b)
+	got := a.Multiply(b)
+	vrt.Assert(got.exp == a.exp, "multiply-exp")
+	vrt.Assert(got.value == want.value, "multiply-value")
+}
+
+func H_C05_L0_Divide() {
+	a := symAmount("a")
+	b := symAmount("b")
+	vrt.Assume(domDivide(a, b))
+	want := specDivide(a, b)
+	got := a.Divide(b)
+	vrt.Assert(got.exp == a.exp, "divide-exp")
+	vrt.Assert(got.value == want.value, "divide-value")
+}
+
+// ---------------------------------------------------------------- layer 1
+
+func maxExp(a, b uint32) uint32 {
+	if a > b {
+		return a
+	}
+	return b
+}
+
+func H_C05_L1_AddSub() {
+	a := symAmount("a")
+	b := symAmount("b")
+	vrt.Assume(domRescale(b, a.exp))
+	br := specRescale(b, a.exp)
+	sum := a.Add(b)
+	vrt.Assert(sum.exp == a.exp, "add-exp")
+	vrt.Assert(sum.value == a.value+br.value, "add-value")
+	dif := a.Subtract(b)
+	vrt.Assert(dif.exp == a.exp, "sub-exp")
+	vrt.Assert(dif.value == a.value-br.value, "sub-value")
+	if b.exp <= a.exp {
+		// no greater precision: exact, nothing lost
+		vrt.Assert(sum.value == a.value+b.value*specPow10[a.exp-b.exp], "add-exact")
+		vrt.Assert(dif.value == a.value-b.value*specPow10[a.exp-b.exp], "sub-exact")
+	}
+}
+
+func H_C05_L1_Compare() {
+	a := symAmount("a")
+	b := symAmount("b")
+	e := maxExp(a.exp, b.exp)
+	vrt.Assume(vrt.And(domRescale(a, e), domRescale(b, e)))
+	x := a.value * specPow10[e-a.exp]
+	y := b.value * specPow10[e-b.exp]
+	c := a.Compare(b)
+	vrt.Assert(vrt.Iff(c == -1, x < y), "compare-lt")
+	vrt.Assert(vrt.Iff(c == 0, x == y), "compare-eq")
+	vrt.Assert(vrt.Iff(c == 1, x > y), "compare-gt")
+	vrt.Assert(vrt.Iff(a.Equals(b), x == y), "equals")
+	vrt.Assert(b.Compare(a) == -c, "compare-antisymmetric")
+	// threshold rules
+	for op := greaterThan; op <= notZero; op++ {
+		r := ThresholdRule{threshold: b, operator: op}
+		got := r.compare(a)
+		switch op {
+		case greaterThan:
+			vrt.Assert(vrt.Iff(got, x > y), "threshold-gt")
+		case greaterEqualThan:
+			vrt.Assert(vrt.Iff(got, x >= y), "threshold-ge")
+		case lessThan:
+			vrt.Assert(vrt.Iff(got, x < y), "threshold-lt")
+		case lessEqualThan:
+			vrt.Assert(vrt.Iff(got, x <= y), "threshold-le")
+		default:
+			vrt.Assert(vrt.Iff(got, x != y), "threshold-ne")
+		}
+	}
+}
+
+func H_C05_L1_Split() {
+	a := symAmount("a")
+	x := vrt.IntIn("x", 1, 1<<20)
+	p, rest := a.Split(x)
+	vrt.Assert(vrt.And(p.exp == a.exp, rest.exp == a.exp), "split-exp")
+	vrt.Assert(p.value == specRHA(a.value, int64(x)), "split-part")
+	vrt.Assert(p.value*int64(x-1)+rest.value == a.value, "split-adds-back")
+}
+
+func H_C05_L1_RescaleFamily() {
+	a := symAmount("a")
+	e := uint32(vrt.Choice("e", nexp()))
+	f := uint32(vrt.Choice("f", nexp()))
+	vrt.Assume(vrt.And(domRescale(a, e), domRescale(a, f)))
+	vrt.Assume(domRescale(a, a.exp+e))
+	up := a.RescaleUp(e)
+	if e > a.exp {
+		vrt.Assert(up == specRescale(a, e), "rescaleup-raises")
+	} else {
+		vrt.Assert(up == a, "rescaleup-keeps")
+	}
+	down := a.RescaleDown(e)
+	if e < a.exp {
+		w := specRescale(a, e)
+		vrt.Assert(vrt.And(down.value == w.value, down.exp == w.exp), "rescaledown-lowers")
+	} else {
+		vrt.Assert(down == a, "rescaledown-keeps")
+	}
+	if e <= f {
+		rr := a.RescaleRange(e, f)
+		w := a
+		if a.exp < e {
+			w = specRescale(a, e)
+		} else if a.exp > f {
+			w = specRescale(a, f)
+		}
+		vrt.Assert(vrt.And(rr.value == w.value, rr.exp == w.exp), "rescalerange")
+	}
+	mp := a.MatchPrecision(Amount{0, e})
+	vrt.Assert(mp == a.RescaleUp(e), "matchprecision")
+	us := a.Upscale(e)
+	w := specRescale(a, a.exp+e)
+	vrt.Assert(vrt.And(us.value == w.value, us.exp == a.exp+e), "upscale")
+	ds := a.Downscale(e)
+	var we uint32
+	if e <= a.exp {
+		we = a.exp - e
+	}
+	w2 := specRescale(a, we)
+	vrt.Assert(vrt.And(ds.value == w2.value, ds.exp == we), "downscale")
+}
+
+func H_C05_L1_Signs() {
+	a := symAmount("a")
+	n := a.Negate()
+	vrt.Assert(vrt.And(n.value == -a.value, n.exp == a.exp), "negate")
+	vrt.Assert(n.Negate() == a, "negate-involution")
+	vrt.Assert(a.Invert() == n, "invert")
+	ab := a.Abs()
+	vrt.Assert(vrt.And(ab.value >= 0, vrt.Or(ab.value == a.value, ab.value == -a.value)), "abs")
+	vrt.Assert(vrt.Iff(a.IsZero(), a.value == 0), "iszero")
+	vrt.Assert(vrt.Iff(a.IsNegative(), a.value < 0), "isnegative")
+	vrt.Assert(vrt.Iff(a.IsPositive(), a.value > 0), "ispositive")
+	p := Percentage{a}
+	vrt.Assert(p.Negate().amount == n, "pct-negate")
+	vrt.Assert(p.Invert().amount == n, "pct-invert")
+}
+
+func H_C05_L1_PercentageOfFrom() {
+	a := symAmount("a")
+	p := Percentage{symAmount("p")}
+	d := specPow10[p.amount.exp]
+	// Of: a × p at a's precision
+	vrt.Assume(domMultiply(a, p.amount))
+	of := p.Of(a)
+	vrt.Assert(of.exp == a.exp, "of-exp")
+	vrt.Assert(of.value == specRHA(a.value*p.amount.value, d), "of-value")
+	// Factor: 1 + p at p's precision
+	fc := p.Factor()
+	vrt.Assert(vrt.And(fc.value == p.amount.value+d, fc.exp == p.amount.exp), "factor")
+}
+
+func H_C05_L1_Remove() {
+	a := symAmount("a")
+	p := Percentage{symAmount("p")}
+	d := specPow10[p.amount.exp]
+	vrt.Assume(p.amount.value+d != 0)
+	vrt.Assume(vrt.MulFits(a.value, d, dom52))
+	rm := a.Remove(p)
+	want := specRHA(a.value*d, p.amount.value+d)
+	vrt.Assert(rm.exp == a.exp, "remove-exp")
+	vrt.Assert(rm.value == want, "remove-value")
+	fr := p.From(a)
+	vrt.Assert(fr.exp == a.exp, "from-exp")
+	vrt.Assert(fr.value == a.value-want, "from-value")
+}
+
+func H_C05_L1_PercentageAmount() {
+	a := symAmount("a")
+	vrt.Assume(vrt.MulFits(a.value, 10000, dom52))
+	p := PercentageFromAmount(a)
+	vrt.Assert(vrt.And(p.amount.value == a.value, p.amount.exp == a.exp+2), "pct-from-amount")
+	back := p.Amount()
+	vrt.Assert(vrt.And(back.value == a.value, back.exp == a.exp), "pct-amount-roundtrip")
+	q := Percentage{a}
+	am := q.Amount()
+	if a.exp >= 2 {
+		vrt.Assert(vrt.And(am.value == a.value, am.exp == a.exp-2), "pct-amount")
+	} else {
+		vrt.Assert(vrt.And(am.value == specRHA(a.value*100, specPow10[a.exp]), am.exp == 0), "pct-amount-low")
+	}
+	e := uint32(vrt.Choice("e", nexp()))
+	vrt.Assume(domRescale(a, e))
+	w := specRescale(a, e)
+	r := q.Rescale(e)
+	vrt.Assert(vrt.And(r.amount.value == w.value, r.amount.exp == e), "pct-rescale")
+	b := symAmount("b")
+	vrt.Assert(q.Equals(Percentage{b}) == a.Equals(b), "pct-equals")
+	vrt.Assert(q.Compare(Percentage{b}) == a.Compare(b), "pct-compare")
 }
